@@ -123,6 +123,9 @@ Fixpoint to_upper (s : bytes) : bytes :=
       end
   end.
 
+(* parse.go upperASCII: only the ASCII letters, every other octet unchanged *)
+Definition to_upper_ascii (s : bytes) : bytes := map up1 s.
+
 Definition all_ascii (s : bytes) : bool := forallb is_ascii7 s.
 
 (* strings.EqualFold(s, p) for an ASCII pattern p.  Simple folding makes
